@@ -39,22 +39,24 @@ ASSUMPTIONS = ["NoOverflow: every table entry fits int32 (|matrix|,|gap| <= 6 an
                "the pseudo -inf of the affine tables is modelled as `none`"]
 TECHNIQUE = ("Lean 4 proof (induction over alignment columns against a two-dimensional recurrence; refinement of the "
              "row-by-row table to the recurrence) + verified checker run on every actual output + correspondence")
-LEVEL_TEXT = ("proof, for every matrix / sequence pair, no length bound (48 theorems).  HEADLINE, one statement per gap kind, "
+LEVEL_TEXT = ("proof, for every matrix / sequence pair, no length bound (56 theorems).  HEADLINE, one statement per gap kind, "
               "about the model of align_optimal (alignOptimalModel: table fill + reported score + start selection + "
               "traceback + [:max_number]): C08_align_optimal_lin (g <= 0, all three modes): the reported score is the "
               "maximum of the public align.score() over all valid alignments of the mode (upper bound + attained), every "
               "returned alignment is valid and scores it, non-empty results are pairwise distinct, at most max_number are "
               "returned and at least one is; C08_align_optimal_aff (open, ext <= 0 incl. open<ext and zeros, all three "
               "modes): the same over valid alignments in which a gap in one sequence never directly abuts a gap in the "
-              "other (a FREE terminal gap counts as a gap: C08_noabut_covers_free_terminal_gaps), except non-emptiness. "
+              "other (a FREE terminal gap counts as a gap: C08_noabut_covers_free_terminal_gaps); non-emptiness: "
+              "C08_align_optimal_aff_nonempty.  Argument refusals modelled and proved exact (C08_args_rejects; known "
+              "finding C08_max_number_defect: max_number >= 2**31 raises OverflowError). "
               "Components: C08_upper/attained_pub_lin/_aff, C08_scorePub_semi[_aff] (terminal_penalty=False slice = "
               "positional form), C08_table_lin/_aff (+ prefix forms), C08_reported_lin/_aff, checker soundness "
               "C08_checker_sound_lin/_aff (run on every actual output), traceback C08_traces_valid / _valid_aff / "
               "_local / _local_aff, distinctness C08_traces_distinct / _distinct_aff (the state of a node is the kind "
               "of the column entering it, so different state paths spell different columns), counts, lookup = "
               "recurrence C08_traces_lookup / _lookup_aff.  Tie to the code: reported score, number of traces and "
-              "membership of every real trace in alignOptimalModel's list on every case.  PARTIAL: non-emptiness of "
-              "the affine result list is not a theorem; int32 = Z under NoOverflow and pseudo -inf = none are "
+              "membership of every real trace in alignOptimalModel's list on every case (exact surviving set when there are "
+              "more than 300 co-optimal paths).  PARTIAL: int32 = Z under NoOverflow and pseudo -inf = none are "
               "assumptions of the correspondence (known finding at the int32 bound)")
 LEVEL_NOTE = ("trusted: Lean kernel, line-protocol driver, generators; int32 arithmetic modelled as Z under NoOverflow "
               "(pseudo -inf of the affine tables = none); the traceback theorems are about followLin over Rec.val, the "
@@ -193,6 +195,10 @@ def _case(rng, maxlen, allow_empty=False):
             w2 = rng.choice(["u8", "u64"])
         if w2 == "u32" and w1 in ("u16", "u32"):
             w1 = rng.choice(["u8", "u64"])
+    force = False
+    if rng.random() < 0.12:          # any of the 16 (CodeType1, CodeType2) pairs, via a forced code dtype
+        w1, w2 = rng.choice(["u8", "u16", "u32", "u64"]), rng.choice(["u8", "u16", "u32", "u64"])
+        force = True
     offs = {"u8": [0], "u16": [0, 251, 253, 255, 256, 290], "u32": [253, 65533, 65535, 65536, 69990],
             "u64": [0, 253, 255, 256]}
     off1, off2 = rng.choice(offs[w1]), rng.choice(offs[w2])
@@ -200,6 +206,8 @@ def _case(rng, maxlen, allow_empty=False):
         off2 = 0                # keep the matrix small: the other alphabet stays at its k symbols
     if w2 == "u32":
         off1 = 0
+    if force:
+        off1 = off2 = 0
     lo = 0 if allow_empty else 1
     n = rng.choice([lo, 1, 2, 2, 3, 3, 4, 4, 5, 5, 6, 7] if maxlen <= 7 else list(range(lo, maxlen + 1)))
     m = rng.choice([lo, 1, 2, 2, 3, 3, 4, 4, 5, 5, 6, 7] if maxlen <= 7 else list(range(lo, maxlen + 1)))
@@ -218,11 +226,15 @@ def _case(rng, maxlen, allow_empty=False):
                 b[rng.randrange(len(b))] = rng.randrange(k2)
         b = b[:max(maxlen, 7)] or [0]
     mform = "array"
+    if force or ((w1, w2) in (("u16", "u8"), ("u8", "u16"), ("u16", "u16")) and off1 + off2 > 0 and rng.random() < 0.3):
+        mform = rng.choice(["dict", "dict", "str", "array"])      # dictionary-built matrices over large alphabets too
+        if mform == "str" and not force:
+            mform = "dict"
     if w1 == "u8" and w2 == "u8" and rng.random() < 0.45:
         mform = rng.choice(["dict", "dict-same", "dict-same", "str", "str-same", "i64", "i16", "fortran", "strided",
                             "readonly"])
     c = {"kind": "opt", "mode": rng.choice("gsl"), "gap": _gap(rng), "a": a, "b": b, "w1": w1, "w2": w2,
-         "off1": off1, "off2": off2, "mform": mform,
+         "off1": off1, "off2": off2, "mform": mform, "force": force,
          "alph2": rng.choice(["same", "chr", "chr"]), "M": _matrix(rng, k1, k2),
          "max": rng.choice([1, 1, 2, 3, 5, 10, 50, rng.randint(1, 50)])}
     if mform.endswith("-same"):     # ONE alphabet, asymmetric scores: square matrix, same or equal alphabet object
@@ -268,6 +280,35 @@ def cases(rng, tier):
                              "alph2": "same", "M": Mx, "max": 50, "rs": []}
                         c["ops"] = _ops(c)
                         yield c
+    # many co-optimal paths (> 300): constant matrices with zero penalties; the driver then runs the model with the
+    # actual max_number and demands exactly the same surviving traces (no abstention above the enumeration cap)
+    for _ in range(12 if tier == "quick" else 150):
+        v = rng.choice([0, 0, 1, -1])
+        c = {"kind": "opt", "mode": rng.choice("gsl"), "gap": rng.choice([[0], [0, 0], [0, -1], [-1, 0]]),
+             "a": [rng.randrange(2) for _ in range(rng.randint(5, 7))],
+             "b": [rng.randrange(2) for _ in range(rng.randint(5, 7))], "w1": "u8", "w2": "u8", "off1": 0, "off2": 0,
+             "force": False, "mform": "array", "alph2": "same",
+             "M": rng.choice([[[v, v], [v, v]], [[1, 0], [0, 1]], [[0, 0], [0, 1]]]),
+             "max": rng.choice([1, 2, 7, 50]), "rs": []}
+        c["ops"] = _ops(c)
+        yield c
+    # argument refusals (hypothesis audit): positive penalties, max_number < 1 and >= 2**31, penalties beyond a C int
+    pool_g = [[1], [5], [0], [-1], [-3], [1, -1], [-1, 1], [2, 2], [0, 0], [-2, -1], [-2**31], [-2**31 - 1],
+              [-2**31 - 1, -1], [-1, -2**40], [-2**31, -2**31]]
+    pool_m = [1, 2, 1000, 0, -1, -5, 2**31 - 1, 2**31, 2**31 + 7, 2**40, 2**63]
+    for _ in range(4 if tier == "quick" else 40):
+        calls = [[rng.choice(pool_g), rng.choice(pool_m)] for _ in range(6)]
+        yield {"kind": "args", "calls": calls, "mode": "g", "gap": [-1], "a": [0], "b": [0], "w1": "u8", "w2": "u8",
+               "alph2": "same", "M": [[0]], "max": 1,
+               "ops": [f"args {_gap_s(g)} {m}" for g, m in calls]}
+    # public score() on traces the aligner never returns: columns of two gaps (allowed in an Alignment), oracle only
+    for _ in range(10 if tier == "quick" else 150):
+        base = _case(rng, 5)
+        tr = _random_path(rng, len(base["a"]), len(base["b"]))
+        for _k in range(rng.randint(1, 3)):
+            tr.insert(rng.randint(0, len(tr)), [-1, -1])
+        yield dict(base, kind="score-odd", trace=tr, tp=rng.choice([0, 1]), w1="u8", w2="u8", off1=0, off2=0,
+                   mform="array", alph2="chr", rs=[], ops=None, force=False)
     # hardening streams (oracle only): less-used entry points, object reuse, refused calls, spellings, defaults
     n_api = 40 if tier == "quick" else 600
     for k in range(n_api):
@@ -275,6 +316,7 @@ def cases(rng, tier):
         base.pop("ops", None)
         base["rs"] = []
         yield dict(base, kind=["reuse", "positional", "ungapped", "alnapi"][k % 4], w1="u8", w2="u8", off1=0, off2=0,
+                   force=False,
                    mform=base["mform"] if base["w1"] == "u8" and base["w2"] == "u8" else "array",
                    alph2=base["alph2"] if base["w1"] == "u8" and base["w2"] == "u8" else "chr")
     for k in range(12 if tier == "quick" else 200):
@@ -413,8 +455,9 @@ def _build(c):
     # code VALUES: the used symbols are the codes off .. off+k-1 of a large alphabet (e.g. 253..257 straddles the
     # uint8 boundary, 65533..65537 the uint16 boundary); the model sees the codes minus the offset and the k1 x k2 block
     o1, o2 = c.get("off1", 0), c.get("off2", 0)
-    s1 = max(WIDTH_SIZE[c["w1"]] or k1, o1 + k1)
-    s2 = max(WIDTH_SIZE[c["w2"]] or k2, o2 + k2)
+    forced = c.get("force", False)
+    s1 = k1 if forced else max(WIDTH_SIZE[c["w1"]] or k1, o1 + k1)
+    s2 = k2 if forced else max(WIDTH_SIZE[c["w2"]] or k2, o2 + k2)
     form = c.get("mform", "array")
     if form.startswith("str"):          # NCBI strings need whitespace-free string symbols
         al1 = _alphabet(s1, "LET")
@@ -443,6 +486,8 @@ def _build(c):
         s.code = np.array(codes, dtype=np.int64)
         if w == "u64":           # alphabets > 2**32 symbols cannot be built: force the uint64 specialisation
             s._seq_code = np.array(codes, dtype=np.uint64)
+        elif forced:             # small alphabet, wide code dtype: reaches every (CodeType1, CodeType2) pair
+            s._seq_code = np.array(codes, dtype={"u8": np.uint8, "u16": np.uint16, "u32": np.uint32}[w])
         expect = {"u8": np.uint8, "u16": np.uint16, "u32": np.uint32, "u64": np.uint64}[w]
         assert s.code.dtype == expect, (s.code.dtype, w)
         seqs.append(s)
@@ -462,11 +507,31 @@ def _align(c):
     return s1, s2, matrix, res
 
 
+def _args_call(gap, mx):
+    """align_optimal on a fixed tiny input with the given gap penalty / max_number"""
+    import numpy as np
+    import biotite.sequence as seq
+    import biotite.sequence.align as align
+    al = _alphabet(3, "int")
+    matrix = align.SubstitutionMatrix(al, al, np.array([[2, -1, 0], [-1, 3, 1], [0, 1, 1]]))
+    s1, s2 = seq.GeneralSequence(al), seq.GeneralSequence(al)
+    s1.code, s2.code = np.array([0, 1, 2, 1]), np.array([1, 2, 0])
+    return align.align_optimal(s1, s2, matrix, gap_penalty=_pygap(gap), max_number=mx)
+
+
 def _run_impl_inner(case):
     import numpy as np
     import biotite.sequence.align as align
     c = case
     out = []
+    if c.get("kind") == "args":
+        for gap, mx in c["calls"]:
+            try:
+                _args_call(gap, mx)
+                out.append("ok")
+            except Exception as e:  # noqa: BLE001
+                out.append("ERR:" + type(e).__name__)
+        return out, list(case["ops"])
     try:
         s1, s2, matrix, res = _align(c)
     except Exception as e:  # noqa: BLE001
@@ -792,10 +857,21 @@ def _oracle_api(c):
         spell.append((f"max_number-{T.__name__}", dict(kw, max_number=T(kw["max_number"]))))
     spell.append(("flags-np.bool_", dict(kw, terminal_penalty=np.bool_(kw["terminal_penalty"]), local=np.bool_(kw["local"]))))
     spell.append(("flags-int", dict(kw, terminal_penalty=int(kw["terminal_penalty"]), local=int(kw["local"]))))
+    # which refusals the documented contract allows for which spelling (gap_penalty: "int or (tuple, dtype=int)")
+    allowed = {"gap-int64": TypeError, "gap-int32": TypeError, "gap-int8": TypeError, "gap-list": TypeError}
+    finding = {"gap-tuple-int16": (OverflowError, "C08/spelling/gap-tuple-small-numpy-int/OverflowError"),
+               "gap-tuple-int8": (OverflowError, "C08/spelling/gap-tuple-small-numpy-int/OverflowError")}
     for what, kws in spell:
         try:
             got = _norm(align.align_optimal(s1, s2, matrix, **kws))
-        except (TypeError, ValueError, OverflowError):   # a refusal is fine, another answer is not
+        except Exception as e:  # noqa: BLE001
+            if what in allowed and isinstance(e, allowed[what]):
+                continue            # a documented refusal; another answer would not be fine
+            if what in finding and isinstance(e, finding[what][0]):
+                v.append((finding[what][1], f"{what}: {type(e).__name__}: {e}" + ctx))
+                continue
+            v.append(("C08/spelling/" + what + "/refused-" + type(e).__name__,
+                      f"{what}: well-formed arguments refused with {type(e).__name__}: {e}" + ctx))
             continue
         if got != base:
             v.append(("C08/spelling/" + what, f"{what}: result {got[0]} differs from the plain spelling {base[0]}" + ctx))
@@ -807,7 +883,12 @@ def _oracle_api(c):
         t1._seq_code, t2._seq_code = mk(s1.code), mk(s2.code)
         try:
             got = _norm(align.align_optimal(t1, t2, matrix, **kw))
-        except (TypeError, ValueError, OverflowError):   # a refusal is fine, another answer is not
+        except Exception as e:  # noqa: BLE001
+            if what == "readonly-code" and isinstance(e, ValueError):
+                v.append(("C08/spelling/readonly-code/ValueError", f"read-only Sequence.code refused: {e}" + ctx))
+            else:
+                v.append(("C08/spelling/" + what + "/refused-" + type(e).__name__,
+                          f"{what}: refused with {type(e).__name__}: {e}" + ctx))
             continue
         if got != base:
             v.append(("C08/spelling/" + what, f"{what}: result {got[0]} differs from {base[0]}" + ctx))
@@ -823,7 +904,8 @@ def _oracle_api(c):
     for what, gg, tt in alts:
         try:
             got = align.score(r, matrix, gg, terminal_penalty=tt)
-        except (TypeError, ValueError, OverflowError):   # a refusal is fine, another answer is not
+        except Exception as e:  # noqa: BLE001
+            v.append(("C08/spelling/" + what + "/refused-" + type(e).__name__, f"align.score refused {what}: {e}" + ctx))
             continue
         if got != plain:
             v.append(("C08/spelling/" + what, f"align.score gives {got}, plain spelling {plain}" + ctx))
@@ -843,8 +925,65 @@ def _oracle_api(c):
     return v
 
 
+def _oracle_args(c):
+    """argument refusals of align_optimal: demanded exactly where the documented contract has them"""
+    v = []
+    a, b, Mx = [0, 1, 2, 1], [1, 2, 0], [[2, -1, 0], [-1, 3, 1], [0, 1, 1]]
+    for gap, mx in c["calls"]:
+        desc = f"gap_penalty={_pygap(gap)} max_number={mx}"
+        try:
+            res = _args_call(gap, mx)
+            exc = None
+        except Exception as e:  # noqa: BLE001
+            res, exc = None, e
+        if any(x > 0 for x in gap):
+            if not isinstance(exc, ValueError):
+                v.append(("C08/refused/positive-gap-accepted", f"{desc}: expected ValueError, got {exc!r}"))
+        elif mx < 1:
+            if not isinstance(exc, ValueError):
+                v.append(("C08/refused/max_number-below-1-accepted", f"{desc}: expected ValueError, got {exc!r}"))
+        elif any(x < -2**31 for x in gap):
+            if exc is None:     # the penalty does not fit the int32 tables: it cannot be honoured
+                v.append(("C08/refused/gap-beyond-int32-accepted", f"{desc}: accepted"))
+        elif mx >= 2**31:
+            if isinstance(exc, OverflowError):
+                v.append(("C08/max_number/at-least-2**31/OverflowError", f"{desc}: {exc} (all max_number >= 1 are in the property)"))
+            elif exc is not None:
+                v.append(("C08/max_number/large-refused-" + type(exc).__name__, f"{desc}: {exc!r}"))
+        elif exc is not None:
+            v.append(("C08/refused/valid-arguments-" + type(exc).__name__, f"{desc}: valid arguments refused: {exc!r}"))
+        if exc is None and all(-1000 < x <= 0 for x in gap) and mx >= 1:
+            want = brute_opt("g", a, b, Mx, gap)
+            if not res or int(res[0].score) != want or len(res) > mx:
+                v.append(("C08/global/args/not-optimal", f"{desc}: reported {res and res[0].score}, optimum {want}, n={len(res or [])}"))
+    return v
+
+
+def _oracle_score_odd(c):
+    """public score() on a trace with columns of two gaps (legal in an Alignment): the documented model applies"""
+    import numpy as np
+    import biotite.sequence.align as align
+    s1, s2, matrix = _build(c)
+    tr = [tuple(r) for r in c["trace"]]
+    gap = c["gap"]
+    want = doc_score(tr, c["M"], c["a"], c["b"], gap[0], gap[-1], bool(c["tp"]))
+    try:
+        got = align.score(align.Alignment([s1, s2], np.array(c["trace"], dtype=np.int64).reshape(-1, 2)), matrix,
+                          _pygap(gap), terminal_penalty=bool(c["tp"]))
+    except Exception as e:  # noqa: BLE001
+        return [("C08/score/double-gap-column-raises-" + type(e).__name__, f"score() raised {e!r} for {tr}")]
+    if int(got) != want:
+        return [("C08/score/double-gap-column-mismatch",
+                 f"score() = {got}, documented model {want} for {tr} a={c['a']} b={c['b']} M={c['M']} gap={gap} tp={c['tp']}")]
+    return []
+
+
 def _oracle_inner(case):
     c = case
+    if c.get("kind") == "args":
+        return _oracle_args(c)
+    if c.get("kind") == "score-odd":
+        return _oracle_score_odd(c)
     if c.get("kind") == "stdmatrix":
         return _oracle_stdmatrix(c)
     if c.get("kind") in ("reuse", "positional", "ungapped", "alnapi"):
@@ -1014,7 +1153,7 @@ def oracle(case):
 
 
 def nontrivial(case, impl_out):
-    if case.get("kind") == "stdmatrix":
+    if case.get("kind") in ("stdmatrix", "args"):
         return True
     if case.get("kind") == "overflow":
         return False
@@ -1023,6 +1162,8 @@ def nontrivial(case, impl_out):
 
 
 def signature(case):
+    if case.get("kind") == "args":
+        return "args|" + str(case["calls"])
     if case.get("kind") == "stdmatrix":
         return f"std|{case['db']}|{case['mode']}|{case['gap']}|{case['sa']}|{case['sb']}"
     return f"{case.get('kind')}|{case.get('mform')}|{case['mode']}|{case['gap']}|{case['a']}|{case['b']}|{case['M']}|{case['max']}"
@@ -1036,7 +1177,7 @@ def distribution(cases, impl_outs):
     for c, o in zip(cases, impl_outs):
         inc("kind", c.get("kind", "?"))
         inc("matrix_form", c.get("mform", c.get("db", "array")))
-        if c.get("kind") == "stdmatrix":
+        if c.get("kind") in ("stdmatrix", "args"):
             continue
         inc("mode", c["mode"])
         inc("gap", "linear" if len(c["gap"]) == 1 else ("affine open<ext" if c["gap"][0] < c["gap"][1] else "affine"))
